@@ -85,6 +85,8 @@ type tcase struct {
 	Exp    absExp   `json:"exp"`
 	Dev    string   `json:"dev"`
 	Model  string   `json:"model"`
+	// replay of a byte-mutation violation: the mutated document itself
+	Mutated *string `json:"mutated,omitempty"`
 }
 
 func (o *absObj) viewWord() string {
